@@ -166,6 +166,16 @@ func Discharge(o *Obligation, dir string, timeout time.Duration, thorough bool) 
 	} else {
 		answers = race(file, timeout, true, nil)
 	}
+	if !decided(answers) && !o.Cover {
+		// nobody answered: a loaded machine, a solver that failed to start, or a query near the limit. One more round
+		// with twice the time before the obligation is reported as undischarged (a `sat` answer is never retried)
+		retry := 2 * timeout
+		if retry > 60*time.Second {
+			retry = 60 * time.Second
+		}
+		time.Sleep(200 * time.Millisecond)
+		answers = append(answers, race(file, retry, true, nil)...)
+	}
 	v := Verdict{Answers: answers}
 	nUnsat, nSat := 0, 0
 	for _, a := range answers {
